@@ -1,6 +1,6 @@
 (* Exact geometry of posed planar polygons: pose (translation, Rz(azimuth), Rx(tilt)) with rational
    cosines/sines, even-odd point-in-polygon as coded, ray / polygon hit, reveal surfaces. *)
-From Coq Require Import ZArith NArith QArith Qabs Bool List.
+From Coq Require Import ZArith NArith QArith Qabs Qround Bool List.
 From CTE Require Import Base.Num Model.Aabb.
 Import ListNotations.
 Local Open Scope Q_scope.
@@ -43,13 +43,13 @@ Definition point_in_poly (q : pt2) (poly : list pt2) : bool :=
   end.
 
 (* ---- ray against a posed polygon ---- *)
-Record hitinfo := mkHit { h_den : Q; h_t : Q; h_pt : pt2 }.
+Record hitinfo := mkHit { h_den : Q; h_t : Q; h_pt : pt2; h_o : vec3 }.
 (* values are kept in lowest terms while evaluating (Qred x == x) *)
 Definition vred (v : vec3) : vec3 := mkV (Qred (vx v)) (Qred (vy v)) (Qred (vz v)).
 Definition ray_plane (p : pose) (r : rayq) : option hitinfo :=
   let o := vred (to_local p (ro r)) in let d := vred (rot_local p (rd r)) in
   if qeqb (vz d) 0 then None
-  else let t := Qred (- vz o / vz d) in Some (mkHit (vz d) t (Qred (vx o + t * vx d), Qred (vy o + t * vy d))).
+  else let t := Qred (- vz o / vz d) in Some (mkHit (vz d) t (Qred (vx o + t * vx d), Qred (vy o + t * vy d)) o).
 Definition ray_hits_poly (p : pose) (poly : list pt2) (r : rayq) : bool :=
   match ray_plane p r with
   | None => false
@@ -66,32 +66,40 @@ Definition seg_dist2 (q a b : pt2) : Q :=
 Fixpoint outline_far (q : pt2) (vj : pt2) (l : list pt2) (m2 : Q) : bool :=
   match l with [] => true | vi :: r => qltb m2 (seg_dist2 q vj vi) && outline_far q vi r m2 end.
 (* the crossing point is farther than sqrt(m2) from every edge *)
-(* a point more than 2 mm outside the bounding rectangle of the outline is far from every edge *)
-Definition outside_bbox (q : pt2) (poly : list pt2) : bool :=
-  let m := 2 # 1000 in
+(* a point more than m outside the bounding rectangle of the outline is farther than m from every edge *)
+Definition outside_bbox (q : pt2) (poly : list pt2) (m : Q) : bool :=
   forallb (fun v => qltb (fst v + m) (fst q)) poly || forallb (fun v => qltb (fst q + m) (fst v)) poly ||
   forallb (fun v => qltb (snd v + m) (snd q)) poly || forallb (fun v => qltb (snd q + m) (snd v)) poly.
-Definition far_from_outline (q : pt2) (poly : list pt2) (m2 : Q) : bool :=
+(* the crossing point is farther than m from every edge *)
+Definition far_from_outline (q : pt2) (poly : list pt2) (m : Q) : bool :=
   match poly with
   | [] => true
-  | v :: _ => if qleb m2 (4 # 1000000) && outside_bbox q poly then true else outline_far q (last poly v) poly m2
+  | v :: _ => if outside_bbox q poly m then true else outline_far q (last poly v) poly (Qred (m * m))
   end.
 
+Definition up20 (q : Q) : Q := Qmake (Qceiling (q * 1048576)) 1048576.
 (* Some answer when exact geometry decides the case with margins, None when the case lies within the
    excluded margins (grazing the plane, starting on it, crossing within 1 mm of the outline) *)
 Definition decided_hit (p : pose) (poly : list pt2) (r : rayq) : option bool :=
   match ray_plane p r with
   | None => None
   | Some h =>
+      (* the crossing point is computed in f32 from the local origin o and direction d (unit) as o + t d with
+         t = - o_z / d_z: an error of a few ulps in o_z (about |o| 2^-23, the rounding of the pose angles
+         included) and in d_z moves the point by about (|o| + t) 2^-23 / |d_z|, which is large when the ray
+         grazes the plane.  The excluded band around the outline is 1 mm plus 16 times that; a ray that starts
+         that close to the plane is excluded too (the sign of t is not reliable). *)
+      let o := h_o h in
+      let reach := Qred (Qabs (vx o) + Qabs (vy o) + Qabs (vz o) + Qabs (h_t h)) in
+      let noise := Qred ((16 # 8388608) * reach) in
       if qltb (Qabs (h_den h)) (2 # 100000) then None
       else if qltb (Qabs (h_t h)) (1 # 10000) then None
+      else if qltb (Qabs (vz o)) noise then None
       else if qltb (h_t h) 0 then Some false
       else
-        (* the crossing point is computed in f32 with an error that grows as the ray grazes the plane:
-           the excluded band around the outline is 1 mm plus 2e-6 / |cos of the incidence| (unit directions) *)
-        let m2 := if qleb (1 # 50) (Qabs (h_den h)) then (121 # 100000000)     (* 1.1 mm, squared *)
-                  else let m := Qred ((1 # 1000) + (2 # 1000000) / Qabs (h_den h)) in Qred (m * m) in
-        if far_from_outline (h_pt h) poly m2 then Some (point_in_poly (h_pt h) poly) else None
+        (* rounded up to a multiple of 2^-20 m (comparisons against short fractions are much cheaper) *)
+        let m := up20 ((1 # 1000) + noise / Qabs (h_den h)) in
+        if far_from_outline (h_pt h) poly m then Some (point_in_poly (h_pt h) poly) else None
   end.
 
 (* ---- bounding box of points ---- *)
